@@ -1,7 +1,9 @@
 """C06 — Every case style of the term is found and rewritten in the same style.
 
 translate   Gen/LineTables.lean (Style::constraints, DEFAULT_PRECEDENCE, the scanner's default style lists, regex meta
-            characters) + Gen/Acronyms.lean / Gen/Styles.lean
+            characters) + Gen/Acronyms.lean / Gen/Styles.lean + Gen/ResolverShape.lean (AmbiguityContext construction sites,
+            level order, file-context constants, extension table) + Gen/LanguageRules.lean (the twelve language modules of the
+            resolver parsed into decision trees)
 prove       RModel.Props.C06 (filterCompatible facts over all texts, resolver membership, key unambiguity, boundary and
             coercion lemmas, the composed same-style theorem under its guard, witnesses)
 correspond  `rewriteline` = real plan_operation (real build_styles_list) + apply_plan on a one-line file  vs
@@ -9,6 +11,8 @@ correspond  `rewriteline` = real plan_operation (real build_styles_list) + apply
             with overlap resolution, the scanner's pre-filter), also on the `busy lines` family (checks/c06_lines.py: the term
             embedded in longer identifiers, dotted paths, '-'/'_' mixes, several occurrences per line);  `filtercompat`, `resolve`, `stylelist` on hostile texts / option sets
             `rewritefile` / `resolvectx` (harness only): context-heavy multi-line files, oracle-judged
+            `langsuggest` / `filesuggest` / `resolvewhy` (+ `hunkctx` against `rewritefile`): the resolver's context heuristics,
+            real code vs Model/Resolver.lean (checks/c06_resolver.py)
 oracle      independent: expected line = d1 + gen.render(style, replacement words) + d2 when the occurrence style is enabled
             under the documented option semantics, unchanged otherwise; ambiguity clause on flat / single-word occurrences.
             Exhaustive over (term pair, input styles) combos x 12 visible styles x 18 delimiter contexts (7 of them non-ASCII or control bytes) x 30 option sets.
@@ -20,7 +24,7 @@ import concurrent.futures
 import json
 import os
 
-from . import common, gen, c06_lines
+from . import common, gen, c06_lines, c06_resolver
 from .common import hexs, unhex
 
 # neutral delimiter contexts: line start/end, spaces, quotes, brackets, '/', '::', '.', ',' and an occurrence inside a
@@ -273,8 +277,8 @@ def run_witnesses(ctx, forms):
             continue
         obj = json.load(open(os.path.join(d, fn)))
         case = obj["case"]
-        if case.get("family") == "busy":
-            continue        # re-observed by c06_lines.run_family
+        if case.get("family") in ("busy", "resolver"):
+            continue        # re-observed by c06_lines.run_family / c06_resolver.run_family
         req = mkreq(forms, case["line"], case["search"], case["replace"], case["opts"])
         impl = common.run_impl([req])[0]
         model = common.run_model([req])[0]
@@ -474,13 +478,25 @@ def run(ctx):
         "hostile texts; stylelist on all option sets + 200 random option sets; busy lines: 9 hand-written + 1200 (thorough 6000) random "
         "lines of 2..5 items (standalone occurrence in one of 12 styles | term embedded in a one-style identifier | prefix/term/suffix "
         "in three independently chosen styles joined by _ - . or nothing | dotted path | filler; 35 %: the spelling of an earlier "
-        "embedded term once more standing alone) x 14 option sets x plural variants on/off x CLI/core-API table. non-trivial = the line contains an occurrence; "
+        "embedded term once more standing alone) x 14 option sets x plural variants on/off x CLI/core-API table; "
+        "resolver context (checks/c06_resolver.py, model = Model/Resolver.lean): langsuggest 6000 (thorough 24000) = every literal the 12 "
+        "language modules test for (read from languages/*.rs) bare x 4 possible-style lists + random preceding texts of 1..3 such "
+        "literals / fillers x every extension of the table and 18 other file names x random and realistic possible lists; filesuggest "
+        "400 (1600) files around the 50-identifier threshold, the 0.4 ratio, ties for first / second place, with extractor noise; "
+        "resolvewhy 2000 (8000) full contexts (17 ambiguous + 8 unambiguous texts x 17 replacement spellings); 80 (320) multi-line "
+        "files of all 12 languages through the real pipeline, every ambiguous hunk compared with the model's replacement text. "
+        "non-trivial = the line contains an occurrence; "
         "distinct = distinct request line")
     ctx.cov["exhaustive"] = True
     ctx.assumptions += [
         "requests use the CLI handlers' call (Some(AtomicConfig) with nothing atomic -> variant table from case_model.rs) unless marked "
         "core-API (atomic_config = None -> the scanner's own variant loop); both are modelled and proved",
         "one-line ASCII file a.txt: no language heuristic, fewer than 50 identifiers (file-context heuristic silent), no project root",
+        "resolver-context family: ASCII path, line and file content (the Rust code's trim / is_uppercase / is_alphabetic / "
+        "is_alphanumeric are Unicode aware, the model's classes are ASCII); at equal identifier counts the real file-context answer "
+        "depends on HashMap iteration order: the harness repeats the call, the model gives the set of answers over all orders "
+        "(proved complete: C06.file_context_answers), observed must be a subset, equal when the set is a singleton; the cross-file "
+        "level is not modelled — it is unreachable (project_root: None at every construction site, read from the source)",
         "acronym set = DEFAULT_ACRONYMS; vocabulary words are neutral (no acronym, no digit, regular plural)",
         "pluralizer crate answers are fed to the model as data (parameters sing/plur of the theorems)",
         "the rewriteline op runs the composed model (Model/LineEnv.lean): coercion = RenamePlan.applyCoercion + apply_coercion_to_variant, "
@@ -491,9 +507,11 @@ def run(ctx):
         "help text of --exclude-styles lists only 7 defaults, the code (and this check) use the 11 of Style::default_styles()"]
     # ---- translate -----------------------------------------------------------------------------------------------
     try:
-        from translate import acronyms, linetables
+        from translate import acronyms, linetables, resolvershape, languagerules
         acronyms.run()
         linetables.run()
+        resolvershape.run()
+        languagerules.run()
     except Exception as e:  # noqa: BLE001 — a translator that cannot parse its source is a broken tie
         ctx.broke("translator", "translate/linetables", repr(e))
     # ---- prove ---------------------------------------------------------------------------------------------------
@@ -670,6 +688,10 @@ def run(ctx):
     if not run_context_family(ctx):
         return
 
+    # ---- the resolver WITH its context heuristics, model against code (Model/Resolver.lean, checks/c06_resolver.py) ----
+    if not c06_resolver.run_family(ctx, sys.modules[__name__]):
+        return
+
     # ---- filterCompatible / resolver on hostile texts (ties the tables the theorems of clause 3 are about) ----------
     atoms = ["foo", "Bar", "BAZ", "x", "A", "API", "api", "Api", "URL", "Id", "ID", "2", "42", "_", "-", ".", " ", "Qux", "qUX",
              "HTTPS", "k8s", "s3", "OAuth", "e", "I"]   # ASCII only: the model covers ASCII exactly
@@ -755,6 +777,11 @@ def replay(ctx, path):
         ctx.broke("build", "cargo", msg)
         return
     req0 = case.get("request", "")
+    if case.get("family") == "resolver":
+        common.lean_build([])
+        import sys
+        c06_resolver.replay_case(ctx, sys.modules[__name__], case)
+        return
     if req0.startswith("rewritefile "):
         out = common.run_impl([req0])[0]
         status, new, hunks = parse_file_out(out)
